@@ -130,6 +130,10 @@ def shards(tier, seed):
     for p in itertools.product(ALPHA, repeat=2):
         out.append(('raw', ''.join(p), n))
     out.append(('raw', '', 1))
+    for first in range(len(HIST_MENU)):
+        out.append(('hist', 2, first))
+        if tier == 'thorough' and first < 8:
+            out.append(('hist', 3, first))
     # seed extension: one more alphabet symbol in the raw strings, enumerated exhaustively up to length 5
     out.append(('rawx', ';/?#:@!$,\'"'[seed % 11], 5))
     return out
@@ -140,7 +144,7 @@ def bounds(tier, seed):
             'raw_alphabet': ALPHA, 'raw_length': 7 if tier == 'quick' else 9, 'flavours': 4}
 
 
-FLOORS = {'repeated_key': 100, 'forms_checked': 1000, 'params_checked': 1000, 'raw_agree': 100000, 'raw_empty_key': 1000}
+FLOORS = {'hist_sequences': 600, 'repeated_key': 100, 'forms_checked': 1000, 'params_checked': 1000, 'raw_agree': 100000, 'raw_empty_key': 1000}
 
 
 def _request():
@@ -203,10 +207,58 @@ def check_pairs(res, Request, pairs, flavours, with_forms):
         res['nontrivial'] += len(flavours)
 
 
+HIST_MENU = ['a=1', 'a=1&a=2', 'a=1&a=2&a=3', 'b=1&a=2', 'a=', 'a', 'b=x&b=y', 'a=1&b=2&a=3', '%61=9', 'a=1&&a=2', 'c=1',
+             'a+b=1&a+b=2', 'a%20b=3', '=1&a=2', 'a=%zz&a=+']
+
+
+def hist_sequences(depth, first):
+    menu = HIST_MENU if depth == 2 else HIST_MENU[:8]
+    return ((menu[first],) + rest for rest in itertools.product(menu, repeat=depth - 1))
+
+
+def _fresh_request():
+    sut.load(fresh=True)      # module-level state of ombott is rebuilt: every sequence starts from a clean process state
+    return sut.sub('request_pkg.request').Request
+
+
+def work_hist(spec, res, Request):
+    """Parsing must depend on its own input only: every sequence of parses (alternating query / forms) from the menu,
+    the last one compared with the reference decoder."""
+    _, depth, first = spec
+    c = res['counters']
+    for seq in hist_sequences(depth, first):
+        for mode in ('query', 'forms', 'mixed'):
+            Request = _fresh_request()
+            got = None
+            for i, q in enumerate(seq):
+                use_forms = mode == 'forms' or (mode == 'mixed' and i % 2 == 0)
+                try:
+                    got = observe_forms(Request, q)[0] if use_forms else observe_query(Request, q)
+                except Exception as e:   # noqa
+                    got = f'raised {type(e).__name__}: {e}'
+            res['states'] += 1
+            res['transitions'] += depth
+            c['hist_sequences'] += 1
+            exp, empty = ref_decode(seq[-1])
+            if empty:
+                continue
+            res['nontrivial'] += 1
+            if got != exp:
+                core.add_violation(res, {'kind': 'hist', 'seq': list(seq), 'mode': mode},
+                                   f'after parsing {list(seq[:-1])!r} ({mode}), {seq[-1]!r} parses as {got!r}, expected {exp!r}',
+                                   sig='history-dependent')
+    res['execs'] = res['states']
+    res['outcomes'].add('history-independent')
+    core.add_sample(res, {'history_menu': HIST_MENU, 'depth': depth})
+    return res
+
+
 def work(spec):
     res = core.new_result()
     Request = _request()
     kind = spec[0]
+    if kind == 'hist':
+        return work_hist(spec, res, Request)
     if kind == 'pairs':
         _, uni, first, n = spec
         if uni == 'all':
@@ -286,6 +338,20 @@ def work(spec):
 
 def replay(case):
     Request = _request()
+    if case['kind'] == 'hist':
+        Request = _fresh_request()
+        got = None
+        for i, q in enumerate(case['seq']):
+            use_forms = case['mode'] == 'forms' or (case['mode'] == 'mixed' and i % 2 == 0)
+            try:
+                got = observe_forms(Request, q)[0] if use_forms else observe_query(Request, q)
+            except Exception as e:   # noqa
+                got = f'raised {type(e).__name__}: {e}'
+        exp, _ = ref_decode(case['seq'][-1])
+        if got == exp:
+            return None
+        return (f'parsing the strings {case["seq"]!r} one after the other in one process ({case["mode"]}): the last one gives '
+                f'{got!r}, alone it must give {exp!r}')
     if case['kind'] == 'pairs':
         pairs = [tuple(p) for p in case['pairs']]
         exp = model(pairs)
